@@ -879,8 +879,12 @@ fn drain(sim: &mut Sim, order: &mut impl Iterator<Item = u16>, non_fifo: &mut bo
         }
         guard += 1;
         if guard > 10_000 {
-            let leaders: Vec<usize> = (0..sim.n).filter(|i| sim.nodes[*i].v_state() == VState::Leader).collect();
-            let cause = if leaders.iter().any(|l| stale_higher_term_tail(sim, *l)) { "a follower's uncommitted tail has a higher term than the leader's log" } else { "network never quiet" };
+            // trigger of the listed finding: the tail of the trace is one leader re-sending an
+            // Append that the same follower keeps rejecting (Cluster::reconcile has no back-off),
+            // whatever makes the follower reject it
+            let tail = &sim.trace[sim.trace.len().saturating_sub(60)..];
+            let rejected = tail.iter().filter(|l| l.contains(" Append ") && l.ends_with("=> LogMismatch")).count();
+            let cause = if rejected >= 15 { "a leader re-sends a rejected Append without pause" } else { "network never quiet" };
             return Err(Fail::new(format!("healthy cluster: message storm ({cause})"), sim.trace[sim.trace.len().saturating_sub(40)..].join("\n")));
         }
         let k = order.next().unwrap_or(0);
